@@ -74,7 +74,7 @@ func runC12(c *core.Ctx) error {
 		return err
 	}
 	avoid := c.KF.Avoid()
-	perCell := c.Pick(2, 40)
+	perCell := c.Pick(4, 40)
 	c.Ev.Coverage.Rule = "cases = valid schema (full profile) + exactly one injected rule violation from the 24-rule catalogue at a placement in {top-level message, nested message, service-less file of the same run, imported non-generated file} with random valid surroundings; judged at the plugin boundary: go-http (all rules) and go-client (JSON-mapping rules except unwrap) must report an error naming the offender and emit zero files. Converse: every base schema must be accepted by all five plugins. Every rule x placement cell is enumerated; non-trivial = placement other than top-level or a base schema that emits >= 3 files before the offender is reached; distinct by (base schema, rule, placement, plugin)."
 	c.Ev.Assumptions = []string{"a rule counts as enforced when the error text names the offending message, field, oneof or enum"}
 	prof := schema.ProfileFull(avoid)
@@ -96,6 +96,7 @@ func runC12(c *core.Ctx) error {
 				continue
 			}
 			var last *c12Case
+			caseNo := 0
 			res := rapidx.Check("C12", perCell, uint64(c.SubSeed(cell)), 30*time.Second, func(t *rapid.T) {
 				s := schema.Generate(t, prof, "v0001")
 				// converse on the base schema
@@ -112,7 +113,12 @@ func runC12(c *core.Ctx) error {
 					}
 				}
 				baseFiles := len(s.AllMessages())
+				schema.InjectShape = cell + caseNo
+				caseNo++
 				inj := schema.Inject(t, s, rule, pl)
+				if inj.Shape != "" {
+					c.Ev.Class("shape:"+inj.Shape, 1)
+				}
 				for _, p := range c12Plugins(inj) {
 					msg, err := c12Judge(c, s, p, inj)
 					if err != nil {
